@@ -10,12 +10,16 @@ open Drx Drx.Gen
 def leafJs (c : Leaf) (name : Name) (fm : Bool) : Name :=
   match c with
   | .globalVar => .s (S "_global." ++ name.str)
-  | .propName | .definedProp =>
+  | .propName =>
     let obj : Str := match name with
       | .s v => (match dictGet PropTables.knownPropertiesVariable v with
                  | .ok o => o
                  | .error _ => if fm then S "this" else S "me")
       | .i _ => if fm then S "this" else S "me"
+    .s (obj ++ S "." ++ name.str)
+  | .definedProp =>
+    -- a property the script declares itself belongs to the script object whatever its name (F139)
+    let obj : Str := if fm then S "this" else S "me"
     .s (obj ++ S "." ++ name.str)
   | .dateTime => .s (S "_system.date('" ++ name.str ++ S "')")
   | .menu => .s (S "_menuBar.menu[" ++ name.str ++ S "]")
